@@ -126,4 +126,18 @@ def gen(seed, tier):
         out.append(f"{spl} {sa(sh, strs)} {rng.choice(['n', sa(sh2, [s or '-' for s in strs2])])} {lim}")
         out.append(f"s_replace {sa(sh, strs)} {sa(sh2, [s or 'a' for s in strs2])} {sa([1], [rs(rng, 2)])} {opt(rng.choice([None, 0, 1, 2]))}")
         out.append(f"s_splitlines {sa(sh, strs)} {rng.choice(['n', arr([1], [1]), arr(sh2, [rng.randint(0, 1) for _ in range(prod(sh2))])])}")
+    # three-operand operations: every ordered triple of operand shapes from a small set, so that each operand in turn
+    # is the one that carries an axis the others lack (seeded change C17j: replace stretched only two of its three)
+    tri = [[1], [2], [2, 1], [1, 2], [2, 2], [3], [1, 1, 2]]
+    for s1, s2, s3 in itertools.product(tri, repeat=3):
+        a1 = sa(s1, [rs(rng, 5, ["a", "b", "-", "x-", "ab"]) or "a-b" for _ in range(prod(s1))])
+        a2 = sa(s2, [rng.choice(["a", "-", "b"]) for _ in range(prod(s2))])
+        a3 = sa(s3, [rng.choice(["+", "**", "", "Q"]) for _ in range(prod(s3))])
+        out.append(f"s_replace {a1} {a2} {a3} {opt(rng.choice([None, 1]))}")
+        if rng.random() < 0.5:
+            w = arr(s2, [rng.randint(0, 7) for _ in range(prod(s2))])
+            f = arr(s3, [ord(rng.choice(".*_")) for _ in range(prod(s3))])
+            out.append(f"{rng.choice(['s_center', 's_ljust', 's_rjust'])} {a1} {w} {f}")
+            lim = arr(s3, [rng.randint(0, 2) for _ in range(prod(s3))])
+            out.append(f"{rng.choice(['s_split', 's_rsplit'])} {a1} {a2} {lim}")
     return out
